@@ -116,11 +116,10 @@ func ParseGetObjectRange(size int64, acceptRange string) (int64, int64, bool, er
 		return 0, size, false, nil
 	}
 
-	if startOffset >= size {
-		return 0, 0, false, errInvalidRange
-	}
-
 	if bRange[1] == "" {
+		if startOffset >= size {
+			return 0, 0, false, errInvalidRange
+		}
 		return startOffset, size - startOffset, true, nil
 	}
 
@@ -131,6 +130,12 @@ func ParseGetObjectRange(size int64, acceptRange string) (int64, int64, bool, er
 
 	if endOffset < startOffset {
 		return 0, size, false, nil
+	}
+
+	// the range is well formed: it can't be satisfied if it starts
+	// beyond the end of the object
+	if startOffset >= size {
+		return 0, 0, false, errInvalidRange
 	}
 
 	if endOffset >= size {
